@@ -520,19 +520,29 @@ theorem lnkdeGradCell_eq (m n : Nat) (o : Nat → Option ℝ) (y : Nat → ℝ) 
   simp only [logv]
   ring
 
+theorem lnkdeCell_eq (m n : Nat) (o : Nat → Option ℝ) (y : Nat → ℝ) :
+    lnkdeCell m n o y = kdeCell m n (logo o) (logv y) - msum m (logo o) (fun lv => lv) := by
+  unfold lnkdeCell kdeCell
+  rw [msum_sub]
+
+/-- the legacy class (no Jacobian term) exceeds the repaired one by `Σ log y` -/
+theorem lnkdeCellLegacy_eq (m n : Nat) (o : Nat → Option ℝ) (y : Nat → ℝ) :
+    lnkdeCellLegacy m n o y = lnkdeCell m n o y + msum m (logo o) (fun lv => lv) := by
+  rw [lnkdeCell_eq]; unfold lnkdeCellLegacy; ring
+
 theorem lnkdeCell_hasDerivAt (m n s : Nat) (hs : s < n) (hn : 2 ≤ n) (o : Nat → Option ℝ)
     (y : Nat → ℝ) (hy : y s ≠ 0) (hv : 0 < varI n (logv y)) :
     HasDerivAt (fun t => lnkdeCell m n o (Function.update y s t)) (lnkdeGradCell m n o y s) (y s) := by
   have hG := kdeCell_hasDerivAt m n s hs hn (logo o) (logv y) hv
   have hc := HasDerivAt.comp (y s) hG (Real.hasDerivAt_log hy)
   have hfun : (fun t => lnkdeCell m n o (Function.update y s t))
-      = (fun u => kdeCell m n (logo o) (Function.update (logv y) s u)) ∘ Real.log := by
+      = fun t => ((fun u => kdeCell m n (logo o) (Function.update (logv y) s u)) ∘ Real.log) t
+          - msum m (logo o) (fun lv => lv) := by
     funext t
-    unfold lnkdeCell
-    rw [logv_update]
+    rw [lnkdeCell_eq, logv_update]
     rfl
   rw [hfun, lnkdeGradCell_eq]
-  refine hc.congr_deriv ?_
+  refine (hc.sub_const _).congr_deriv ?_
   rw [div_eq_mul_inv]
 
 /-! ## from one cell to the whole array -/
